@@ -216,12 +216,32 @@ func (e *enc) run(fr *frame, atEntry Term) {
 			}
 		}
 		fr.cur = fr.at[b]
+		fr.curNames = map[string]ssa.Value{}
+		if d := b.Idom(); d != nil {
+			for k, v := range fr.names[d] {
+				fr.curNames[k] = v
+			}
+		}
+		for _, in := range b.Instrs {
+			if phi, ok := in.(*ssa.Phi); ok && phi.Comment != "" {
+				fr.curNames[phi.Comment] = phi
+			}
+		}
 		if fr.loopHead[b] {
 			e.loopHeader(fr, b)
 		}
 		for _, in := range b.Instrs {
 			e.instr(b, in)
+			if d, ok := in.(*ssa.DebugRef); ok {
+				if obj, ok := d.Object().(*types.Var); ok && obj != nil {
+					fr.curNames[obj.Name()] = d.X
+				}
+			}
+			if c, ok := in.(*ssa.Call); ok && fr.contract != nil && len(fr.contract.After) > 0 {
+				e.afterCall(fr, c)
+			}
 		}
+		fr.names[b] = fr.curNames
 		fr.atEnd[b] = fr.cur
 		fr.memOut[b] = copyMem(e.mem)
 		// back edges out of this block: invariant preservation
@@ -592,6 +612,68 @@ func (e *enc) loopLatch(fr *frame, latch, h *ssa.BasicBlock) {
 	fr.cur = saveCur
 }
 
+// afterCall: lemmas attached to "the k-th call of callee" (source order) are proved, then assumed
+func (e *enc) afterCall(fr *frame, c *ssa.Call) {
+	if fr.callOrd == nil {
+		fr.callOrd = map[*ssa.Call]string{}
+		byName := map[string][]*ssa.Call{}
+		for _, b := range fr.fn.Blocks {
+			for _, in := range b.Instrs {
+				if cc, ok := in.(*ssa.Call); ok {
+					n := calleeShort(cc)
+					if n != "" {
+						byName[n] = append(byName[n], cc)
+					}
+				}
+			}
+		}
+		for n, cs := range byName {
+			sort.SliceStable(cs, func(i, j int) bool { return cs[i].Pos() < cs[j].Pos() })
+			for i, cc := range cs {
+				fr.callOrd[cc] = fmt.Sprintf("%s#%d", n, i+1)
+			}
+		}
+	}
+	key := fr.callOrd[c]
+	for i, cl := range fr.contract.After[key] {
+		env := e.fnEnv(fr, e.mem)
+		names := fr.curNames
+		env.locals = func(name string) (tval, bool) {
+			if v, ok := names[name]; ok {
+				if a, isAlloc := v.(*ssa.Alloc); isAlloc {
+					if l, ok := fr.loc[a]; ok && l.ty != nil {
+						return e.mkT(e.read(l), l.ty), true
+					}
+				}
+				if p, ok := fr.prov[v]; ok {
+					if _, isMap := v.Type().Underlying().(*types.Map); isMap {
+						return e.mkT(e.read(p), v.Type()), true
+					}
+				}
+				return e.mkT(e.value(v), v.Type()), true
+			}
+			return tval{}, false
+		}
+		g, err := e.specBool(env, cl.E)
+		if err != nil {
+			e.contractError(fr, fmt.Sprintf("assert after %s: %v", key, err))
+			continue
+		}
+		e.oblige(fmt.Sprintf("assert@%s.%d", key, i+1), g, c.Pos(), cl.Text)
+		e.assumeAt(g)
+	}
+}
+
+func calleeShort(c *ssa.Call) string {
+	if cal := c.Common().StaticCallee(); cal != nil {
+		return cal.Name()
+	}
+	if c.Common().IsInvoke() {
+		return c.Common().Method.Name()
+	}
+	return ""
+}
+
 func (e *enc) contractError(fr *frame, msg string) {
 	s := fmt.Sprintf("CONTRACT-ERROR %s: %s", fnFull(fr.fn), msg)
 	for _, x := range e.cerrs {
@@ -623,7 +705,16 @@ func (e *enc) instr(b *ssa.BasicBlock, in ssa.Instruction) {
 		base := e.locOf(x.X)
 		pt := x.X.Type().Underlying().(*types.Pointer)
 		if base == nil {
-			if !isNodeType(pt) {
+			if isNodeType(pt) {
+				// embedded base struct of a parser/lexer/context object: same object identity
+				v := e.value(x.X)
+				e.safety("nil", fmt.Sprintf("(not (= %s 0))", v), x.Pos(), x.String())
+				fr.val[x] = v
+				if fr.nodeField == nil {
+					fr.nodeField = map[ssa.Value]Term{}
+				}
+				fr.nodeField[x] = v
+			} else {
 				e.note("FieldAddr on unknown base %s in %s", x, fnFull(fr.fn))
 			}
 			return
@@ -703,6 +794,11 @@ func (e *enc) instr(b *ssa.BasicBlock, in ssa.Instruction) {
 	case *ssa.UnOp:
 		switch x.Op {
 		case token.MUL:
+			if v, ok := fr.nodeField[x.X]; ok && isNodeType(x.Type()) {
+				// embedded base object of a runtime object: same identity (constructors initialise it)
+				fr.val[x] = v
+				return
+			}
 			l := e.locOf(x.X)
 			if l == nil {
 				fr.val[x] = e.fresh("ld", e.so.of(x.Type()))
@@ -861,6 +957,9 @@ func (e *enc) instr(b *ssa.BasicBlock, in ssa.Instruction) {
 			if l, ok := fr.loc[r]; ok {
 				if fr.retLocs == nil {
 					fr.retLocs = map[int]*Loc{}
+				}
+				if old, ok := fr.retLocs[i]; ok && old != l {
+					fr.retLocConflict = true
 				}
 				fr.retLocs[i] = l
 			}
